@@ -189,6 +189,19 @@ func (e *env) startListener(cfg Cfg, bind string) (*lst, error) {
 // handed over keeps the fields an edit cannot change (response headers; the redirector
 // flag is always the profile's), so "the new configuration" is unambiguous.
 func (e *env) editListener(l *lst, cfg Cfg) {
+	// an edit always meets a listener that has already served a request matching its current
+	// configuration (whatever a listener derives from its configuration on first use exists
+	// by then); the same in a replay
+	cur := l.start
+	if l.edit != nil {
+		cur = *l.edit
+	}
+	rq, _ := randomReq(e.c, cur, true)
+	rq.Body = "junk"
+	id := e.freshID()
+	key, iv := keyFor(id)
+	serveInproc(l.h.GinEngine, rawRequest(&rq, "127.0.0.1:"+l.port, demon.Checkin(id, key, iv)), "127.0.0.1:40001", rq.Method)
+	e.c.Observe("warm-up-requests-before-an-edit", 1)
 	cp := cfg
 	l.edit = &cp
 	// every second edit arrives as an operator's Listener/Edit package (lists joined by
